@@ -143,10 +143,17 @@ def ty_coq(t):
 
 
 # ------------------------------------------------------------------ defaults (python expr, coq value)
+def order_src(o):
+    k, v = o
+    return f"order({v})" if k == "order" else f"order({k}={v!r})"
+
+
 def default_src(dv):
     k = dv[0]
     if k == "none":
         return "None"
+    if k == "undefined":
+        return "Undefined"
     if k in ("int", "str", "bool", "float"):
         return repr(dv[1])
     if k == "emptylist":
@@ -158,6 +165,8 @@ def default_coq(dv):
     k = dv[0]
     if k == "none":
         return "VNone"
+    if k == "undefined":
+        return "VUndefined"
     if k == "int":
         return f"(VInt {coq_Z(dv[1])})"
     if k == "str":
@@ -176,9 +185,13 @@ def universe_src(u, spell=0):
     L = ["from dataclasses import dataclass, field",
          "from enum import Enum",
          "from typing import *",
-         "from apischema import alias, schema, dependent_required",
-         "from apischema.metadata import fall_back_on_default",
+         "from apischema import alias, schema, dependent_required, order, serialized, Undefined, UndefinedType",
+         "from apischema.metadata import fall_back_on_default, skip, none_as_undefined",
+         "from apischema.fields import with_fields_set",
          "NoneType = type(None)",
+         "def _is_none(x): return x is None",
+         "def _is_zero(x): return (isinstance(x, (int, float)) and x == 0)",
+         "def _is_empty(x): return isinstance(x, str) and x == ''",
          ""]
     for i, vals in enumerate(u.get("enums", [])):
         L.append(f"class E{i}(Enum):")
@@ -211,6 +224,10 @@ def universe_src(u, spell=0):
             if not c["fields"]:
                 L.append("    pass")
         else:
+            if c.get("cls_order"):
+                L.append("@order({" + ", ".join(f"{k!r}: {order_src(o)}" for k, o in c["cls_order"]) + "})")
+            if c.get("fields_set"):
+                L.append("@with_fields_set")
             L.append("@dataclass")
             L.append(f"class C{cid}:")
             for f in c["fields"]:
@@ -221,19 +238,45 @@ def universe_src(u, spell=0):
                     md.append(con_src(f["con"]))
                 if f.get("fallback"):
                     md.append("fall_back_on_default")
+                if f.get("skip_default") or f.get("skip_if"):
+                    args = []
+                    if f.get("skip_default"):
+                        args.append("serialization_default=True")
+                    if f.get("skip_if"):
+                        args.append("serialization_if=_is_" + f["skip_if"])
+                    md.append("skip(" + ", ".join(args) + ")")
+                if f.get("none_undef"):
+                    md.append("none_as_undefined")
+                if f.get("order"):
+                    md.append(order_src(f["order"]))
                 mds = (", metadata=" + " | ".join(md)) if md else ""
+                ts = ty_src(f["ty"], spell)
+                if f.get("none_undef"):
+                    ts = f"Optional[{ts}]"
+                if f.get("undefined"):
+                    ts = f"Union[{ts}, UndefinedType]"
                 if f["required"]:
                     if md:
-                        L.append(f"    {f['name']}: {ty_src(f['ty'], spell)} = field({mds[2:]})")
+                        L.append(f"    {f['name']}: {ts} = field({mds[2:]})")
                     else:
-                        L.append(f"    {f['name']}: {ty_src(f['ty'], spell)}")
+                        L.append(f"    {f['name']}: {ts}")
                 else:
                     ds = default_src(f["default"])
                     if ds is None:
-                        L.append(f"    {f['name']}: {ty_src(f['ty'], spell)} = field(default_factory=list{mds})")
+                        L.append(f"    {f['name']}: {ts} = field(default_factory=list{mds})")
                     else:
-                        L.append(f"    {f['name']}: {ty_src(f['ty'], spell)} = field(default={ds}{mds})")
-            if not c["fields"]:
+                        L.append(f"    {f['name']}: {ts} = field(default={ds}{mds})")
+            for m in c.get("methods", []):
+                args = [repr(m["alias"])] if m.get("alias") and m["alias"] != m["name"] else []
+                if m.get("order"):
+                    args.append("order=" + order_src(m["order"]))
+                rt = ty_src(m["ty"], spell)
+                if m.get("undefined"):
+                    rt = f"Union[{rt}, UndefinedType]"
+                L.append(f"    @serialized({', '.join(args)})")
+                L.append(f"    def {m['name']}(self) -> {rt}:")
+                L.append(f"        return {default_src(m['result']) or '[]'}")
+            if not c["fields"] and not c.get("methods"):
                 L.append("    pass")
             if c.get("depreq"):
                 dr = "{" + ", ".join(f"{k!r}: {list(v)!r}" for k, v in c["depreq"]) + "}"
@@ -287,7 +330,7 @@ def universe_coq(u):
     for c in u.get("classes", []):
         fs = []
         for f in field_decl_order(c):
-            dv = default_coq(f["default"]) if not f["required"] and c["kind"] != "typeddict" else "VNone"
+            dv = ("VUndefined" if c["kind"] == "typeddict" else default_coq(f["default"])) if not f["required"] else "VNone"
             fs.append(f"(mkF {coq_str(f['name'])} {coq_str(f.get('alias') or f['name'])} {ty_coq(f['ty'])} "
                       f"{coq_bool(f['required'])} {dv} {coq_bool(bool(f.get('fallback')))} {con_opt_coq(f.get('con'))} "
                       f"{fser_coq(f)})")
@@ -388,13 +431,15 @@ def data_unjson(d):
 
 
 # ------------------------------------------------------------------ values: python results -> coq `value`
-def value_coq(v, mod):
+def value_coq(v, mod, sort_sets=True):
     import dataclasses
     import enum
     if id(v) in OTHERS_BY_ID and OTHERS_BY_ID[id(v)][0] is v:
         return f"(VOther {coq_str(OTHERS_BY_ID[id(v)][1])})"
     if v is None:
         return "VNone"
+    if type(v).__name__ == "UndefinedType":
+        return "VUndefined"
     if isinstance(v, enum.Enum):
         eid = int(type(v).__name__[1:])
         return f"(VEnum {coq_nat(eid)} {prim_coq(v.value)})"
@@ -407,22 +452,25 @@ def value_coq(v, mod):
     if isinstance(v, str):
         return f"(VStr {coq_str(v)})"
     if isinstance(v, list):
-        return f"(VList {coq_list([value_coq(x, mod) for x in v])})"
+        return f"(VList {coq_list([value_coq(x, mod, sort_sets) for x in v])})"
     if isinstance(v, set):
-        return f"(VSet {coq_list(sorted(value_coq(x, mod) for x in v))})"
+        return f"(VSet {coq_list((sorted if sort_sets else list)(value_coq(x, mod, sort_sets) for x in v))})"
     if isinstance(v, frozenset):
-        return f"(VFrozenSet {coq_list(sorted(value_coq(x, mod) for x in v))})"
+        return f"(VFrozenSet {coq_list((sorted if sort_sets else list)(value_coq(x, mod, sort_sets) for x in v))})"
     if isinstance(v, tuple) and hasattr(v, "_fields"):
         cid = int(type(v).__name__[1:])
-        fs = [f"({coq_str(n)}, {value_coq(getattr(v, n), mod)})" for n in v._fields]
+        fs = [f"({coq_str(n)}, {value_coq(getattr(v, n), mod, sort_sets)})" for n in v._fields]
         return f"(VObj {coq_nat(cid)} {coq_list(fs)})"
     if isinstance(v, tuple):
-        return f"(VTuple {coq_list([value_coq(x, mod) for x in v])})"
+        return f"(VTuple {coq_list([value_coq(x, mod, sort_sets) for x in v])})"
     if isinstance(v, dict):   # compared order-insensitively (python dict equality): emitted in a canonical order
-        return f"(VDict {coq_list(sorted(f'({value_coq(k, mod)}, {value_coq(x, mod)})' for k, x in v.items()))})"
+        return f"(VDict {coq_list(sorted(f'({value_coq(k, mod, sort_sets)}, {value_coq(x, mod, sort_sets)})' for k, x in v.items()))})"
     if dataclasses.is_dataclass(v):
         cid = int(type(v).__name__[1:])
-        fs = [f"({coq_str(f.name)}, {value_coq(getattr(v, f.name), mod)})" for f in dataclasses.fields(v)]
+        fs = [f"({coq_str(f.name)}, {value_coq(getattr(v, f.name), mod, sort_sets)})" for f in dataclasses.fields(v)]
+        fset = v.__dict__.get("_apischema_fields_set")
+        if fset is not None:
+            fs.append(f"({coq_str('~fields_set')}, (VList {coq_list([f'(VStr {coq_str(n)})' for n in sorted(fset)])}))")
         return f"(VObj {coq_nat(cid)} {coq_list(fs)})"
     return f"(VOther {coq_str(type(v).__name__)})"
 
